@@ -21,13 +21,12 @@
 (*   UndersizedRaiseBecomesAllin, PotLimitCapsRaiseOnly                     *)
 (* see DESIGN.md 2.1.                                                       *)
 (***************************************************************************)
-EXTENDS Settlement
+EXTENDS Settlement, HoldemChips
 
 NULL == <<>>   \* JSON null / absent pointer
 
 -----------------------------------------------------------------------------
 (* ---------- the hand ---------- *)
-Seats(g) == 0 .. (g.n - 1)
 NextSeat(g, c) == (c + 1) % g.n
 Alive(g) == {i \in Seats(g) : ~g.P[i].fold}
 Movable(g) == {i \in Seats(g) : ~g.P[i].fold /\ g.P[i].stack # 0}
@@ -63,30 +62,6 @@ SetCurrentPlayer(g, i) ==
   LET g1 == IF g.cur # -1 THEN [g EXCEPT !.P[g.cur].allowed = <<>>] ELSE g
       g2 == [g1 EXCEPT !.cur = i]
   IN [g2 EXCEPT !.P[i].allowed = AvailableActions(g2, i)]
-
-ResetActed(g) == [g EXCEPT !.P = [i \in Seats(g) |-> [g.P[i] EXCEPT !.acted = FALSE]]]
-BecomeRaiser(g, i) ==
-  LET g1 == IF g.P[i].wager > 0 THEN [g EXCEPT !.P[i].vpip = TRUE] ELSE g
-      g2 == ResetActed([g1 EXCEPT !.raiser = i])
-  IN [g2 EXCEPT !.P[i].acted = TRUE]
-
-Pay(g, i, chips, isWager) ==
-  LET p == g.P[i] IN
-  IF p.stack <= chips
-  THEN LET rp == g.roundPot + (p.init - p.wager)
-           g1 == [g EXCEPT !.roundPot = rp,
-                           !.maxWager = IF g.meta.limit = "pot" THEN rp + g.prs ELSE g.maxWager,
-                           !.P[i].did = "allin", !.P[i].wager = p.init, !.P[i].stack = 0]
-       IN IF ~isWager THEN g1
-          ELSE LET raised == p.init - g.cw
-                   minRaise == g.cw + g.prs
-                   g2 == IF p.init > g.cw THEN [g1 EXCEPT !.cw = p.init] ELSE g1
-               IN IF raised >= minRaise THEN BecomeRaiser(g2, i) ELSE ResetActed(g2)
-  ELSE LET w == p.wager + chips
-           rp == g.roundPot + chips
-           g1 == [g EXCEPT !.P[i].wager = w, !.P[i].stack = p.init - w, !.roundPot = rp,
-                           !.maxWager = IF g.meta.limit = "pot" THEN rp + g.prs ELSE g.maxWager]
-       IN IF isWager /\ g.cw < w THEN BecomeRaiser([g1 EXCEPT !.cw = w], i) ELSE g1
 
 SetLast(g, src, ty, v) == [g EXCEPT !.last = [source |-> src, type |-> ty, value |-> v]]
 
